@@ -73,11 +73,11 @@ EndDir(start, sign, quarters, sdir) ==
 NearDir(p, r1024, dir, tol) ==
   LET ex == (r1024 * dir[1]) \div dir[3]  ey == (r1024 * dir[2]) \div dir[3]
       dx == p[1] - ex  dy == p[2] - ey
-  IN dx * dx + dy * dy <= tol * tol
+  IN Abs(dx) <= tol /\ Abs(dy) <= tol /\ dx * dx + dy * dy <= tol * tol      \* (bounds first: 31-bit squares)
 RadiusOK(p, r1024) ==
-  LET d2 == p[1] * p[1] + p[2] * p[2]
-      lo == (r1024 * 995) \div 1000 - 2   hi == (r1024 * 1005) \div 1000 + 2
-  IN (lo <= 0 \/ d2 >= lo * lo) /\ d2 <= hi * hi
+  LET lo == (r1024 * 995) \div 1000 - 2   hi == (r1024 * 1005) \div 1000 + 2
+  IN /\ Abs(p[1]) <= hi /\ Abs(p[2]) <= hi
+     /\ LET d2 == p[1] * p[1] + p[2] * p[2] IN (lo <= 0 \/ d2 >= lo * lo) /\ d2 <= hi * hi
 \* quadrant of a sample, 0..3 (clockwise on screen from +x); -1 on an axis
 Quadrant(p) == IF p[1] > 0 /\ p[2] > 0 THEN 0 ELSE IF p[1] < 0 /\ p[2] > 0 THEN 1
                ELSE IF p[1] < 0 /\ p[2] < 0 THEN 2 ELSE IF p[1] > 0 /\ p[2] < 0 THEN 3 ELSE -1
